@@ -365,7 +365,7 @@ theorem rescan_sim2 (c : Cfg) (k : Comp) (p : Pred) (hk : c.skip k = .pred p) (h
                 rw [hbs] at hq
                 have hwn := nbr_slice_nextc c s a e (bb.index - a) (by omega) he (by rw [hab']; exact hq) hstop
                 rw [hab'] at hwn
-                have h1 := holds_weaker c p hitc _ (nbr c s bb.index)
+                have h1 := holds_weaker c p (Or.inl hitc) _ (nbr c s bb.index)
                   ⟨(nbr c s bb.index).prev, (nbr c s bb.index).next, (nbr c (slice s a e) (bb.index - a)).prevc,
                     (nbr c (slice s a e) (bb.index - a)).nextc⟩ (Weaker.refl c _) (Weaker.refl c _) hwp.2 hwn hh
                 rw [← h1]
@@ -378,7 +378,7 @@ theorem rescan_sim2 (c : Cfg) (k : Comp) (p : Pred) (hk : c.skip k = .pred p) (h
                       · left; omega
                       · right; intro x hx; exact ⟨hstop x hx, h1 x hx⟩)
                   rw [hab'] at hwn
-                  have h1 := holds_weaker c p hitc _ (nbr c s bb.index)
+                  have h1 := holds_weaker c p (Or.inl hitc) _ (nbr c s bb.index)
                     ⟨(nbr c (slice s a e) (bb.index - a)).prev, (nbr c (slice s a e) (bb.index - a)).next,
                       (nbr c s bb.index).prevc, (nbr c s bb.index).nextc⟩ hwp.1 hwn (Weaker.refl c _) (Weaker.refl c _) hh
                   rw [← h1]
